@@ -24,6 +24,19 @@ CLAIMED["C16"] = {
     "technique": "contract-based deductive verification: postconditions + ghost lemmas on the real functions, exact polynomial/radical normal form, z3 NRA with instantiated trig axioms",
 }
 
+CLAIMED["C19"] = {
+    "text": "Postconditions on the real domain-equalisation code: bounds/step helper returns (max of minima, min of maxima, max mean step) for sorted and unsorted domains; arange_with_interval returns round_half_even(ratio)+1 points from start to stop exactly with the spacing closest to the requested step (the int() conversion of the symbolic ratio forks over every feasible grid length up to a stated cap); equalize_domains returns that grid over the exact overlap and every array equals the piecewise-linear interpolant of its input along its own axis, raises ValueError exactly when the domains do not overlap by one step, returns identical-domain inputs as the same objects; estimator.capture(signal, domain=d) equals the capture of the equalised filters and signal. All for every real domain/array value per enumerated shape.",
+    "design_ref": "DESIGN.md section 6 C19",
+    "note": A_COMMON + " scipy interp1d is an assumed contract (piecewise-linear interpolant through the sorted knots, fill outside); np.linspace/np.around/np.sort are modelled; new grids of <= 3 (quick) / <= 10 (thorough) intervals; 2-4 domains of 2-5 points.",
+    "technique": "contract-based deductive verification: postconditions on the real functions, path forking over integer grid sizes, If-case-split + exact polynomial identity, z3 LRA/NRA",
+}
+CLAIMED["C20"] = {
+    "text": "Postconditions on the real irr2flux / flux2irr with the real pint registry running on symbolic magnitudes: the result is I*lambda*f element-wise along the stated wavelength axis, where the measured code factor f agrees with 1e-9/(h c N_A) from the exact SI values to relative 1e-12 for every prefix; flux2irr(irr2flux(I)) = I*(f*g) with |f*g-1| <= 1e-12; linear in the spectrum; each output element mentions only its own spectrum element and wavelength; plain arrays and Quantity inputs give the same magnitudes.",
+    "design_ref": "DESIGN.md section 6 C20",
+    "note": A_COMMON + " pint is not stubbed (its Python code runs on the symbolic magnitudes); pint's float constants are what makes the factor agree to 1e-12 rather than exactly. Quantity inputs with axis= are not covered (np.apply_along_axis strips units).",
+    "technique": "contract-based deductive verification: postconditions on the real conversion functions over symbolic magnitudes, exact rational comparison of the conversion factor with SI constants",
+}
+
 NOT_APPLICABLE = {}
 
 FIX_COMMITS = ["b2d156a (np.trapz -> trapezoid)"]
